@@ -42,7 +42,7 @@ def supported_entries():
 def _impl(tier, seed, search):
     import sympy as sp
     import spatialmath.base as b
-    from spatialmath import SO3, SE3, Twist3
+    from spatialmath import SO3, SE3, SE2, Twist3
     g = inputs.rng(seed)
     npts = 6 if tier == 'quick' else 40
     L = Laws('C16', rule="every API entry marked 'SymPy: supported' called with all-symbolic and mixed symbolic/numeric arguments, lambdified and compared with the "
@@ -53,6 +53,8 @@ def _impl(tier, seed, search):
         out = [list(g.uniform(-3, 3, size=k)) for _ in range(npts)]
         spec = [0.0, math.pi / 2, -math.pi / 2, math.pi, math.pi / 4]
         out += [[float(g.choice(spec)) for _ in range(k)] for _ in range(3)]
+        # just off the special angles (1e-13 .. 1e-8 away, either side), where a numeric path that snaps small values would show
+        out += [[float(g.choice(spec)) + float(g.choice([-1, 1])) * 10.0 ** g.uniform(-13, -8) for _ in range(k)] for _ in range(4)]
         return out
     def compare(name, symcall, numcall, syms, pattern='all-symbolic'):
         """symcall(): library called with symbols; numcall(values): same call with numbers"""
@@ -158,6 +160,14 @@ def _impl(tier, seed, search):
         'skew([0,y,z])': (lambda: b.skew([0, y, z]), lambda y_, z_: b.skew([0, y_, z_]), [y, z]),
         'SE3*point([1,y,2])': (lambda: SE3.Rx(th) * [1, y, 2], lambda t, y_: SE3.Rx(t) * [1, y_, 2], [th, y]),
         'transl((0,y,z)) tuple': (lambda: b.transl((0, y, z)), lambda y_, z_: b.transl((0, y_, z_)), [y, z]),
+        # vectors whose sum of squares is a single term (|x|, not x), numeric x symbolic operand order, non-round float coefficients under simplify()
+        'norm([x,0,0])': (lambda: b.norm([x, 0, 0]), lambda x_: b.norm([x_, 0, 0]), [x]), 'norm([x,x,0])': (lambda: b.norm([x, x, 0]), lambda x_: b.norm([x_, x_, 0]), [x]),
+        'norm([x*y,0])': (lambda: b.norm([x * y, 0]), lambda x_, y_: b.norm([x_ * y_, 0]), [x, y]), 'norm([0,y])': (lambda: b.norm([0, y]), lambda y_: b.norm([0, y_]), [y]),
+        'cross(numeric,symbolic)': (lambda: b.cross([1, 2, 3], [x, y, z]), lambda x_, y_, z_: b.cross([1, 2, 3], [x_, y_, z_]), [x, y, z]),
+        'cross(float array,symbolic)': (lambda: b.cross(np.r_[0.5, 0.0, 0.0], [0, 0, z]), lambda z_: b.cross(np.r_[0.5, 0.0, 0.0], [0, 0, z_]), [z]),
+        'cross(symbolic,numeric)': (lambda: b.cross([x, y, z], [1, 2, 3]), lambda x_, y_, z_: b.cross([x_, y_, z_], [1, 2, 3]), [x, y, z]),
+        'simplify(float coefficients)': (lambda: (SE3.Rx(th) * SE3.Ry(0.3) * SE3(x, 1.2345678912345, z)).simplify(), lambda t, x_, z_: SE3.Rx(t) * SE3.Ry(0.3) * SE3(x_, 1.2345678912345, z_), [th, x, z]),
+        'simplify(SO3 float)': (lambda: (SO3.Rx(th) * SO3.Rz(1.1)).simplify(), lambda t: SO3.Rx(t) * SO3.Rz(1.1), [th]),
         'Twist3.Rx': (lambda: Twist3.Rx([th]).S, lambda t: Twist3.Rx([t]).S, [th]), 'Twist3.Ry': (lambda: Twist3.Ry([th]).S, lambda t: Twist3.Ry([t]).S, [th]), 'Twist3.Rz': (lambda: Twist3.Rz([th]).S, lambda t: Twist3.Rz([t]).S, [th]),
     }
     for name, (symcall, numcall, syms) in ENT.items():
